@@ -45,11 +45,14 @@ def make_case(i, rng, tier):
         tasks.append(mk("src%d" % j, pre, source=kind))
     chunks = [rng.choice((1, 1, 2, 3, 5, 8, 16, 64)) for _ in range(rng.randint(1, 4))]
     tasks.append(mk("file", pre, source="simfile" if rng.random() < 0.7 else "simfile_text", chunks=chunks))
+    tasks.append(mk("live", pre, source="growing", chunks=[rng.choice((16, 24, 64))]))
     cuts = sorted(rng.randrange(0, k + 1) for _ in range(rng.randint(1, 3)))
     tasks.append(mk("files", pre, source="simfiles", chunks=cuts))
     if inp["root"] in (model.STREAM, "Command", "Response") or rng.random() < 0.5:
         hx = medium.write_hex(pre, rng)
         tasks.append(dict(mk("hex", b""), data=hx.hex(), front="hex", source="counting"))
+        if rng.random() < 0.5:
+            tasks.append(dict(mk("hexlive", b""), data=hx.hex(), front="hex", source="growing", chunks=[rng.choice((40, 64, 200))]))
         if inp["root"] == model.STREAM and pre:
             bounds = [b for b in o.boundaries if b <= k] + ([k] if k not in o.boundaries else [])
             lg = medium.write_swtpm_log(pre, sorted(set(bounds)), rng)
